@@ -231,14 +231,31 @@ func runOne(ctx context.Context, b backend, file string, timeoutS int) SolverRes
 
 // solve races the back ends on one query. A first cheap attempt with z3-new,
 // then all three in parallel.
+// solve: one quick attempt, then a race of all back ends; when the race ends without a definite answer it
+// is repeated once with three times the budget (a timeout on a loaded machine must not become an alarm).
 func solve(query string, dir, name string, timeoutS int) SolverResult {
+	r := solveOnce(query, dir, name, timeoutS, true)
+	if r.Status == "unsat" || r.Status == "sat" {
+		return r
+	}
+	r2 := solveOnce(query, dir, name, 3*timeoutS, false)
+	if r2.Status == "unsat" || r2.Status == "sat" {
+		return r2
+	}
+	return r
+}
+
+func solveOnce(query string, dir, name string, timeoutS int, quickFirst bool) SolverResult {
 	file := filepath.Join(dir, sanitize(name)+".smt2")
 	if err := os.WriteFile(file, []byte(query), 0o644); err != nil {
 		return SolverResult{Status: "error", Output: err.Error()}
 	}
-	r := runOne(context.Background(), backends[0], file, 3)
-	if r.Status == "unsat" || r.Status == "sat" {
-		return r
+	r := SolverResult{Status: "timeout"}
+	if quickFirst {
+		r = runOne(context.Background(), backends[0], file, 3)
+		if r.Status == "unsat" || r.Status == "sat" {
+			return r
+		}
 	}
 	ctx, cancel := context.WithCancel(context.Background())
 	defer cancel()
